@@ -61,6 +61,10 @@ class PyRepo:
                 except SyntaxError as e:
                     raise AnalysisError(f'{path} does not parse: {e}')
                 self.modules[rel] = self._index(rel, path, tree, src)
+        # positional fields of dataclasses (for `case C(a, b)` patterns)
+        from . import pyeval
+        pyeval.register_match_fields({c.name: [n for n, _t in c.fields] for m in self.modules.values() for c in m.classes.values()
+                                      if any(d.startswith('dataclass') for d in c.decorators)})
 
     @classmethod
     def get(cls, root: str | None = None) -> 'PyRepo':
